@@ -1,21 +1,33 @@
 """C02 — each consumer gets every upstream message at most once, in order, unaltered."""
-from .. import protocol, pipeline
+from .. import protocol, pipeline, netlossy
 
 ID = 'C02'
-PROP_FILES = ['C02', 'C02s', 'C02Verbatim', 'C02Once']
-MODULES = ['OFModel.Zmq.Receiver', 'OFModel.Zmq.Sender', 'OFModel.Gen.Facts']
+PROP_FILES = ['C02', 'C02s', 'C02Verbatim', 'C02Once', 'NetLossyInv', 'C01NetLossy', 'NetLossyLog', 'NetLossySend', 'NetLossyRec', 'C02NetLossy']
+MODULES = ['OFModel.Zmq.Receiver', 'OFModel.Zmq.Sender', 'OFModel.FilterLoop', 'OFModel.Zmq.Net', 'OFModel.Zmq.NetLossy', 'OFModel.Gen.Facts']
 RULE = ('receiver: adversarial wire feeds (see C01) incl. duplicated / stale / restarting id streams and topic names that are frame-prefixes of others; '
         'oracle: returned ids strictly increasing, every delivered frame is the payload published for that (source, id, topic) under the name the '
         'subscription maps it to, unsubscribed and hidden topics never delivered.  sender: adversarial request feeds (duplicated, stale, ahead, restarted '
-        'clients, OOB/CLOSE, time-outs up to eviction); oracle: one id per call, published ids strictly increasing.  non-trivial = a set returned / a block published')
-ASSUMPTIONS = ['libzmq replaced by the in-process fake (FIFO per connection, prefix filtering); the thorough tier runs one lock-step script on real ipc:// sockets and on the fake and compares what the consumers are handed (harness/ofverif/realsmoke.py)', 'payload bytes are represented by an identity token carried in the envelope; the byte-level codec is C09']
-TRUSTED = ['transcriptions OFModel/Zmq/Receiver.lean and Sender.lean, compared call-by-call with the real classes']
+        'clients, OOB/CLOSE, time-outs up to eviction); oracle: one id per call, published ids strictly increasing.  '
+        'network level (OFProps/C02NetLossy.lean, model OF.Net.Lossy = closed network of N filters + loss of queued PUB->SUB messages + loss / duplication of queued requests; harness/ofverif/netlossy.py): '
+        '2-7 REAL MQ objects on fakezmq, the topologies / process functions / schedules of C01 (2) with 0-6 faults applied to the queues of the real fake sockets, compared event by event with the model (driver op netl.run); '
+        'oracles on the implementation: net-order (ids handed to one incarnation strictly increase), net-twice (no (id, topic) handed twice to one incarnation), net-not-verbatim (every handed frame = a message an upstream node '
+        'put on its PUB socket earlier under that id, topic and content); plus the Lean witness run exLossy (a message lost in the middle of a set: ids 1, 2 handed, 0 never) on the real objects.  '
+        'non-trivial = a set returned / a block published / a lossy trial with an effective fault in which sets are handed')
+ASSUMPTIONS = ['network level (C02_netl_order, C02_netl_verbatim, C02_netl_at_most_once, C02_netl_at_most_once_verbatim): every topology, every process-function family (ProcOK), every schedule of node events, restarts, '
+               'losses of queued PUB->SUB messages, losses and duplications of queued requests, no bound; all subscriptions synchronised all-topics; order / at-most-once are per incarnation of the consuming node (needed: exRestartBoth); '
+               '"unaltered" = same id, topic frame decoding to the handed topic, same payload identity (hence ghost content / origin) as a message in the .sent observation of an earlier nodeSend of the upstream node; C02_netl_end_to_end joins the sender side on (send0_T: a payload travels under the frame of its own topic): '
+               'the (topic, content) handed is an entry of the dict an upstream node\'s process() returned and sent under that id at an earlier nodeSend; '
+               'not modelled: duplication / re-ordering of PUB->SUB messages on one connection, zmq.Again; completeness under loss is not claimed',
+               'libzmq replaced by the in-process fake (FIFO per connection, prefix filtering); the thorough tier runs one lock-step script on real ipc:// sockets and on the fake and compares what the consumers are handed (harness/ofverif/realsmoke.py)', 'payload bytes are represented by an identity token carried in the envelope; the byte-level codec is C09']
+TRUSTED = ['transcriptions OFModel/Zmq/Receiver.lean and Sender.lean, compared call-by-call with the real classes',
+           'network model lean/OFModel/Zmq/Net.lean + fault events lean/OFModel/Zmq/NetLossy.lean; compared event by event with real MQ objects on fakezmq whose socket queues suffer the same faults (harness/ofverif/netlossy.py)']
 
 
 def run(ctx):
     n = 8000 if ctx.thorough else (3000 if ctx.escalate else 800)
     protocol.recv_campaign(ctx, 'C02', n, ['wf', 'adv', 'adv', 'bal'])
     protocol.send_campaign(ctx, 'C02', n, ['sync', 'adv', 'adv', 'bal'])
+    netlossy.campaign(ctx, 'C02', 2000 if ctx.thorough else (450 if ctx.escalate else 150), origin_oracle=False)
     if not ctx.replay: pipeline.campaign_sets(ctx, 'C02', 400 if ctx.thorough else 40)
     if ctx.thorough and not ctx.replay:
         # keep the fake honest: the same lock-step script on real libzmq ipc:// sockets (subprocess, untouched zeromq module) and on the fake
